@@ -15,19 +15,31 @@ import (
 
 func init() { register("C03", "translation_validation", checkC03) }
 
-func fpSym(name string) *sym.Term   { return sym.Sym(sym.Fp, name) }
-func fpConst(v int64) *sym.Term     { return sym.Const(sym.Fp, big.NewInt(v)) }
-func mul(ts ...*sym.Term) *sym.Term { r := ts[0]; for _, t := range ts[1:] { r = sym.Mul(r, t) }; return r }
-func add(ts ...*sym.Term) *sym.Term { r := ts[0]; for _, t := range ts[1:] { r = sym.Add(r, t) }; return r }
+func fpSym(name string) *sym.Term { return sym.Sym(sym.Fp, name) }
+func fpConst(v int64) *sym.Term   { return sym.Const(sym.Fp, big.NewInt(v)) }
+func mul(ts ...*sym.Term) *sym.Term {
+	r := ts[0]
+	for _, t := range ts[1:] {
+		r = sym.Mul(r, t)
+	}
+	return r
+}
+func add(ts ...*sym.Term) *sym.Term {
+	r := ts[0]
+	for _, t := range ts[1:] {
+		r = sym.Add(r, t)
+	}
+	return r
+}
 
 // rcbAdd returns the Renes–Costello–Batina closed forms for a = 0 with b3 given.
 func rcbAdd(x1, y1, z1, x2, y2, z2, b3 *sym.Term) (x3, y3, z3 *sym.Term) {
 	three := fpConst(3)
-	a := add(mul(x1, y2), mul(x2, y1))          // X1Y2+X2Y1
-	m := sym.Sub(mul(y1, y2), mul(b3, z1, z2))  // Y1Y2 - b3 Z1Z2
-	pl := add(mul(y1, y2), mul(b3, z1, z2))     // Y1Y2 + b3 Z1Z2
-	yz := add(mul(y1, z2), mul(y2, z1))         // Y1Z2+Y2Z1
-	xz := add(mul(x1, z2), mul(x2, z1))         // X1Z2+X2Z1
+	a := add(mul(x1, y2), mul(x2, y1))         // X1Y2+X2Y1
+	m := sym.Sub(mul(y1, y2), mul(b3, z1, z2)) // Y1Y2 - b3 Z1Z2
+	pl := add(mul(y1, y2), mul(b3, z1, z2))    // Y1Y2 + b3 Z1Z2
+	yz := add(mul(y1, z2), mul(y2, z1))        // Y1Z2+Y2Z1
+	xz := add(mul(x1, z2), mul(x2, z1))        // X1Z2+X2Z1
 	x3 = sym.Sub(mul(a, m), mul(b3, yz, xz))
 	y3 = add(mul(pl, m), mul(three, b3, x1, x2, xz))
 	z3 = add(mul(yz, pl), mul(three, x1, x2, a))
@@ -54,7 +66,9 @@ func pointFields(prog *load.Program) pointLayout {
 	}
 }
 
-func fieldSet() *models.Set { return models.NewSet().Merge(models.Field()).Merge(models.Helpers()).Merge(models.Scalar()) }
+func fieldSet() *models.Set {
+	return models.NewSet().Merge(models.Field()).Merge(models.Helpers()).Merge(models.Scalar())
+}
 
 // coordsOf returns the final coordinate terms of the point argument i.
 func coordsOf(r *Run, pl pointLayout, i int) [3]*sym.Term {
